@@ -8,11 +8,12 @@
   makes the key set prefix-free; go-libdht panics on anything else).
 
   Still open at full strength (monitored by the correspondence + the brute-force predicates of the
-  `C18v` driver on every run, exhaustively for short keys):  coalesce_spec, gaps_spec,
+  `C18v` driver on every run, exhaustively for short keys):  coalesce_spec, the order of the gaps,
   nextLeaf_cyclic_successor, covered_iff, allEntries_sorted.
 -/
 import KadDHT.Proofs.Keyspace
 import KadDHT.Proofs.Alloc
+import KadDHT.Proofs.Gaps
 namespace KadDHT.C18
 open KadDHT Trie
 variable {α β : Type}
@@ -153,12 +154,49 @@ theorem allocAt_exact (items dests : Trie Key) (k depth n : Nat) (pi pd : Key) (
     TopK x k (keysL dests) (asg (allocAt dests k depth items) x) :=
   good_all dests k depth items pi pd n hsd hsi hwd hwi hpi hpd hld hli x hx
 
+/-- TrieGaps tiles the target: for every (long enough) key `x` below the target prefix exactly one element of
+    "stored keys ++ gaps" is a prefix of `x`.  Existence … -/
+theorem gaps_cover_target (t : Trie α) (hwf : WF [] t) (target order x : Key) (ht : isPre target x = true)
+    (hkl : ∀ k ∈ keysL t, k.length ≤ x.length) (hh : t.height ≤ x.length) :
+    ∃ c ∈ keysL t ++ gaps t target order, isPre c x = true := by
+  rcases gaps_cover target order t x hwf ht hkl hh with ⟨k, hk, hkx⟩ | ⟨g, hg, hgx⟩
+  · exact ⟨k, List.mem_append.2 (Or.inl hk), hkx⟩
+  · exact ⟨g, List.mem_append.2 (Or.inr hg), hgx⟩
+
+/-- … and uniqueness: stored keys and gaps are pairwise not prefix-related (no gap overlaps a stored key or another
+    gap), so two of them cannot both be prefixes of one key. -/
+theorem gaps_disjoint (t : Trie α) (hwf : WF [] t) (target order : Key) :
+    (keysL t ++ gaps t target order).Pairwise Incomp := by
+  rw [List.pairwise_append]
+  refine ⟨hwf.pairwise.imp (fun h => ⟨h.1, h.2⟩), gaps_pairwise target order t hwf, ?_⟩
+  intro k hk g hg
+  exact (gaps_sound target order t hwf g hg k hk).symm
+
+theorem gaps_exactly_one (t : Trie α) (hwf : WF [] t) (target order x : Key) (c1 c2 : Key)
+    (h1 : c1 ∈ keysL t ++ gaps t target order) (h2 : c2 ∈ keysL t ++ gaps t target order)
+    (hx1 : isPre c1 x = true) (hx2 : isPre c2 x = true) : c1 = c2 := by
+  apply Classical.byContradiction
+  intro hne
+  have hpw := gaps_disjoint t hwf target order
+  have hinc : Incomp c1 c2 := by
+    -- pairwise over a list: any two distinct members are related one way or the other; the relation is symmetric
+    rcases List.mem_iff_getElem.1 h1 with ⟨i, hi, rfl⟩
+    rcases List.mem_iff_getElem.1 h2 with ⟨j, hj, rfl⟩
+    have hij : i ≠ j := fun e => hne (by subst e; rfl)
+    rcases Nat.lt_or_gt_of_ne hij with hlt | hgt
+    · exact List.pairwise_iff_getElem.1 hpw i j hi hj hlt
+    · exact (List.pairwise_iff_getElem.1 hpw j i hj hi hgt).symm
+  rcases isPre_total hx1 hx2 with h | h
+  · rw [hinc.1] at h; cases h
+  · rw [hinc.2] at h; cases h
+
 /-! non-vacuity: a concrete well-formed trie with leaves at two depths meets the hypotheses -/
 def exT : Trie Nat := node (node (leaf [false, false] 1) (leaf [false, true, true] 2)) (leaf [true] 3)
 example : WF [] exT := by simp [exT, WF, isPre]
 example : exT.findPrefixOfKey [false, true, true, false] = some [false, true, true] := by decide
 example : (exT.prune [false]).keys = [[true]] := by decide
 example : (regionsAt 1 [] [] exT).map (·.1) = [[false, false], [false, true], [true]] := by decide
+example : gaps exT [false] [] = [[false, true, false]] := by decide
 
 /-! non-vacuity of `allocate_exact`: four 3-bit destinations, two items, k = 2 -/
 def exD : Trie Nat := node (node (leaf [false, false, true] 1) (leaf [false, true, false] 2))
